@@ -34,10 +34,16 @@ def setup(tmp, seed):
     # references that carry the SAME file names (hence labels) as the queries but different contents
     for nm, c in zip(qnames, rs[:3]):
         W.write_fasta(os.path.join(tmp, 'rsame', nm), c, gz=nm.endswith('.gz'))
-    with open(os.path.join(tmp, 'ql.txt'), 'w') as f:
-        f.write('\n'.join(qnames) + '\n')
-    with open(os.path.join(tmp, 'rl.txt'), 'w') as f:
-        f.write('\n\n'.join(rnames) + '\n')
+    # the first query and the second reference are reached through symbolic links with other base names: labels come from the names given
+    for d_, nm in (('qdir', qnames[0]), ('rdir', rnames[1])):
+        link = os.path.join(tmp, d_, nm)
+        target = os.path.join(tmp, 'store', d_ + '_blob_0001.fasta' + ('.gz' if nm.endswith('.gz') else ''))
+        os.makedirs(os.path.dirname(target), exist_ok=True)
+        os.replace(link, target)
+        os.symlink(target, link)
+    # list files in two renderings of ListFile!Styles: CRLF without final terminator / LF with blank lines and padding
+    cli.write_listfile(os.path.join(tmp, 'ql.txt'), qnames, dict(eol='crlf', final=False, blanks=False, pad=False))
+    cli.write_listfile(os.path.join(tmp, 'rl.txt'), rnames, dict(eol='lf', final=(seed % 2 == 0), blanks=True, pad=True))
     ks = KmerSpec(*K1)
     env['qids'] = ['qs_a', 'qs,"b"', 7] if False else ['qs_a', 'qs,"b"', 'qs c']
     env['rids'] = [10, 11, 12, 13, 14]
